@@ -80,7 +80,10 @@ void cstl_slist_push_back(struct cstl_slist * const sl, void * const e)
 
 void * cstl_slist_pop_front(struct cstl_slist * const sl)
 {
-    return __cstl_slist_element(sl, __cstl_slist_erase_after(sl, &sl->h));
+    if (cstl_slist_size(sl) > 0) {
+        return __cstl_slist_element(sl, __cstl_slist_erase_after(sl, &sl->h));
+    }
+    return NULL;
 }
 
 void * cstl_slist_front(const struct cstl_slist * const sl)
